@@ -134,6 +134,22 @@ example : ctxSpec (Context.UpdateContext { A := 9, N := 64, B := -5, C := 3 } (-
     T87.contextUpdate (T87.defaults 255 0) { A := 9, B := -5, C := 3, N := 64 } (-70) =
       { A := 39, B := -5, C := 2, N := 33 } := by decide
 
+/-- (10c) FULL for the states a scan reaches: starting from the initial context of any RANGE in 2..65536
+    (`NewContext`, regenerated), after ANY sequence of error values with |Errval| ≤ 2^16 and
+    |Errval·(2·NEAR+1)| ≤ 2^17 (RESET = 64) the code's context is the standard's (A.12 + A.13 iterated)
+    — the 2^24 overflow guard of the code is unreachable (`CtxReach`: 0 ≤ A ≤ N·2^16, 1 ≤ N ≤ 64,
+    −N < B ≤ 0, −128 ≤ C ≤ 127 is an inductive invariant) -/
+theorem contextRun_eq_T87 (range near : Int) (p : T87.Params) (hN : p.NEAR = near) (hR : p.RESET = 64)
+    (hr : 2 ≤ range ∧ range ≤ 65536) (es : List Int)
+    (hes : ∀ e ∈ es, (-65536 ≤ e ∧ e ≤ 65536) ∧ (-131072 ≤ e * (2 * near + 1) ∧ e * (2 * near + 1) ≤ 131072)) :
+    ctxSpec (es.foldl (fun c e => Context.UpdateContext c e near 64) (NewContext range)) =
+      es.foldl (fun q e => T87.contextUpdate p q e) (ctxSpec (NewContext range)) ∧
+    CtxReach (es.foldl (fun c e => Context.UpdateContext c e near 64) (NewContext range)) :=
+  ctxReach_run near p hN hR es _ (ctxReach_init range hr) hes
+
+example : ctxSpec ([3, -200, 7].foldl (fun c e => Context.UpdateContext c e 0 64) (NewContext 256)) =
+    { A := 214, B := 0, C := 1, N := 4 } := by decide
+
 /-- (11) run-interruption contexts: `RunModeContext.UpdateVariables` = code segment A.23 and
     `RunModeContext.ComputeMap` = code segment A.21, for all inputs -/
 theorem runInterruption_eq_T87 (c : RunModeContext) (e em k reset : Int) (p : T87.Params) (hR : p.RESET = reset) :
